@@ -121,8 +121,11 @@ struct Args {
 			else if (a == "--only" && i + 1 < argc) only = argv[++i];
 			else if (a == "--replay" && i + 1 < argc) replay = argv[++i];
 		}
-		gen() = SplitMix64(seed * 0x9E3779B97F4A7C15ULL + 17);
-		reseed_lib(seed ^ 0xABCDEF0123ULL);
+		// hash the seed first: SplitMix64 states of consecutive seeds must not be shifts of one stream
+		SplitMix64 h1(seed ^ 0xD1B54A32D192ED03ULL), h2(~seed * 0xFF51AFD7ED558CCDULL + 0x2545F4914F6CDD1DULL);
+		h1.next(); h2.next();
+		gen() = SplitMix64(h1.next() ^ (h2.next() << 1));
+		reseed_lib(h2.next() ^ h1.next() ^ 0xABCDEF0123ULL);
 	}
 	bool thorough() const { return tier == "thorough"; }
 };
